@@ -230,6 +230,61 @@ class _NS:
     pass
 
 
+SCRATCH = [None]
+_mf_counter = [0]
+
+
+def mf_value(v):
+    """a decoded value in machine-file syntax"""
+    if isinstance(v, bool):
+        return 'true' if v else 'false'
+    if isinstance(v, int):
+        return str(v)
+    if isinstance(v, list):
+        return '[' + ', '.join("'%s'" % x for x in v) + ']'
+    return "'%s'" % v
+
+
+def mf_write(path, cfg, cross):
+    lines = []
+    if cross:
+        lines += ['[host_machine]', "system = 'linux'", "cpu_family = 'x86_64'", "cpu = 'x86_64'", "endian = 'little'"]
+    for sect in cfg.split(S1)[1:]:
+        name, body = sect.split(S5)
+        lines.append('[%s]' % name)
+        for e in body.split(S2)[1:]:
+            k, v = e.split(S3)
+            lines.append('%s = %s' % (k, mf_value(dec_value(v))))
+    open(path, 'w').write('\n'.join(lines) + '\n')
+
+
+def mfload(args):
+    """writes real machine files, constructs a real Environment and renders Environment.options"""
+    import argparse
+    from mesonbuild import msetup, environment, cmdline
+    _mf_counter[0] += 1
+    root = os.path.join(SCRATCH[0], 'mf-%d-%d' % (os.getpid(), _mf_counter[0]))
+    os.makedirs(os.path.join(root, 'src'))
+    open(os.path.join(root, 'src', 'meson.build'), 'w').write("project('p')\n")
+    argv = []
+    if args[1] != '-':
+        mf_write(os.path.join(root, 'n.ini'), args[1], False)
+        argv += ['--native-file', os.path.join(root, 'n.ini')]
+    if args[0] == 'T':
+        mf_write(os.path.join(root, 'c.ini'), args[2] if args[2] != '-' else '', True)
+        argv += ['--cross-file', os.path.join(root, 'c.ini')]
+    p = argparse.ArgumentParser()
+    msetup.add_arguments(p)
+    o = p.parse_args(argv + [os.path.join(root, 'src'), os.path.join(root, 'b')])
+    cmdline.parse_cmd_line_options(o)
+    try:
+        env = environment.Environment(os.path.join(root, 'src'), os.path.join(root, 'b'), o)
+        return S2.join(enc_key(k) + S3 + enc_value(v) for k, v in env.options.items())
+    finally:
+        import shutil
+        shutil.rmtree(root, ignore_errors=True)
+
+
 def ev(fn, args, bad_sink):
     if fn == 'seq':
         return run_seq(args, bad_sink)
@@ -286,6 +341,15 @@ def ev(fn, args, bad_sink):
         return enc_value(O.OptionStore(False).sanitize_prefix(args[0]))
     if fn == 'sandir':
         return enc_value(O.OptionStore(False).sanitize_dir_option_value(args[0], dec_key(args[1]), dec_value(args[2])))
+    if fn == 'mfkey':
+        from mesonbuild.environment import Environment
+        sp = args[1][1:] if args[1].startswith('=') else None
+        return enc_key(Environment.mfilestr2key(None, args[0], 'built-in options', sp,
+                                                MachineChoice.BUILD if args[2] == 'B' else MachineChoice.HOST))
+    if fn == 'fromstr':
+        return enc_key(OptionKey.from_string(args[0]))
+    if fn == 'mfload':
+        return mfload(args)
     if fn == 'tables':
         from mesonbuild.compilers import all_languages
         dd = S2.join(S3.join([k, v[0], 'T' if v[1] else 'F']) for k, v in O.OptionStore.DEFAULT_DEPENDENTS.items())
@@ -703,18 +767,65 @@ def oracle_misc(sc):
     return fails
 
 
+PER_MACHINE_DOC = ('pkg_config_path', 'cmake_prefix_path')      # Builtin-options.md: options that exist per machine
+LANGS_DOC = ('c', 'cpp', 'objc', 'objcpp', 'fortran', 'rust', 'd', 'cuda', 'vala', 'cs', 'java', 'swift', 'cython', 'nasm', 'masm', 'linearasm')
+
+
+def oracle_mf(sc):
+    """Machine files (Machine-files.md, Builtin-options.md): an entry of a [sub:...] section is an
+    option of subproject sub; an entry of a native file describes the BUILD machine when cross
+    compiling (and the only machine otherwise); `build.` names the build machine; build-machine
+    values exist only for per-machine options; [project options] are read for the host machine only."""
+    fails = []
+    cross = sc['cross']
+    want = {}
+    files = {'native': [], 'cross': []}
+    for f, subp, kind, name, bp, v in sc['entries']:
+        files[f].append((subp, kind, name, bp, v))
+        build = bp or (f == 'native' and cross)
+        if kind == 'project' and f == 'native' and cross:
+            continue
+        per_machine = name in PER_MACHINE_DOC or ('_' in name and name.split('_')[0] in LANGS_DOC)
+        if build and not per_machine:
+            continue
+        want[(subp or None, 'B' if build else 'H', name)] = v
+
+    def cfg(lst):
+        sects = {}
+        for subp, kind, name, bp, v in lst:
+            sn = (subp + ':' if subp else '') + ('built-in options' if kind == 'builtin' else 'project options')
+            sects.setdefault(sn, []).append((('build.' if bp else '') + name, v))
+        return ''.join(S1 + n + S5 + ''.join(S2 + k + S3 + 'S' + v for k, v in e) for n, e in sects.items())
+    try:
+        r = mfload(['T' if cross else 'F', cfg(files['native']) if files['native'] else '-', cfg(files['cross']) if cross else '-'])
+    except Exception as e:
+        return [dict(kind='machine_file_rejected', scenario=sc, exc=type(e).__name__)]
+    got = {}
+    for ent in (r.split(S2) if r else []):
+        k, v = ent.split(S3)
+        su, m, n = k.split(S4)
+        got[(su[1:] if su.startswith('=') else None, m, n)] = v[1:]
+    if got != want:
+        fails.append(dict(kind='machine_file_keys', scenario=sc,
+                          missing=sorted(str(k) + '=' + v for k, v in want.items() if got.get(k) != v),
+                          unexpected=sorted(str(k) + '=' + v for k, v in got.items() if want.get(k) != v)))
+    return fails
+
+
 def main():
     req = json.load(sys.stdin)
     out = {}
     bad = []
+    SCRATCH[0] = req.get('scratch') or '/var/tmp'
     if 'cases' in req:
         out['results'] = [safe(fn, args, bad) for fn, args in req['cases']]
     out['stored_invalid'] = bad
     if 'oracle' in req:
+        SCRATCH[0] = req.get('scratch') or '/var/tmp'
         res = []
         for sc in req['oracle']:
             try:
-                f = {'prec': oracle_scenario, 'bt': oracle_buildtype, 'prefix': oracle_prefix, 'yield': oracle_yield, 'aug': oracle_aug, 'misc': oracle_misc}[sc['o']]
+                f = {'prec': oracle_scenario, 'bt': oracle_buildtype, 'prefix': oracle_prefix, 'yield': oracle_yield, 'aug': oracle_aug, 'misc': oracle_misc, 'mf': oracle_mf}[sc['o']]
                 res.extend(f(sc))
             except Exception as e:
                 res.append({'kind': 'exception', 'exc': type(e).__name__ + ': ' + str(e), 'scenario': sc})
